@@ -82,7 +82,9 @@ def _dense(inp):
 
 def cases(rng, tier):
     out = []
-    for _ in range(2500 if tier == "quick" else 40000):
+    n_main = 2500 if tier == "quick" else 40000
+    n_colrange = 700 if tier == "quick" else 10000     # extra column-range cases on the ragged variant (stepped, both signs)
+    for it in range(n_main + n_colrange):
         inp = _gen_input(rng)
         dense = _dense(inp)
         r = len(dense); lens = [len(x) for x in dense]; m = min(lens); w = max(lens)
@@ -91,6 +93,8 @@ def cases(rng, tier):
             cls = "ragged"
         ops = ROW_OPS + (RAGGED_OPS if cls == "ragged" else MATRIX_OPS)
         f = rng.choice(ops)
+        if it >= n_main:
+            cls, f = "ragged", "col_range"
         p = {"inp": inp, "cls": cls, "f": f, "dtype": rng.choice(["int64", "int64", "int32", "float64", "uint8"])}
         if f == "row_int":
             p["i"] = rng.randint(-r, r - 1)
@@ -107,7 +111,7 @@ def cases(rng, tier):
         elif f == "col_range":
             for _ in range(30):
                 a = rng.choice([None] + list(range(-w, w + 1))); b = rng.choice([None] + list(range(-w, w + 1)))
-                s = rng.choice([None, 1, 1, 2, 3, -1, -1, -2])
+                s = rng.choice([None, 1, 1, 2, 3, -1, -1, -2] if it < n_main else [2, 3, -1, -2, -2, -3, -3])
                 exp = [x[a:b:s] for x in dense]
                 if any(len(e) == 0 for e in exp):
                     continue
